@@ -14,7 +14,7 @@ Binding:  real twisted.internet.defer.Deferred objects driven along generated pr
 META = dict(
     id="C01",
     specs=["DeferredAbs.tla", "DeferredAbsMC.tla", "DeferredAbsTrace.tla", "DeferredAbsSim.tla",
-           "DeferredImpl.tla", "DeferredImplMC.tla"],
+           "DeferredImpl.tla", "DeferredImplMC.tla", "DeferredKnown.tla", "DeferredKnownTrace.tla"],
     technique="TLA+ reference interpreter of the Deferred chaining rules (TLC exhaustive over all short programs; "
               "the _runCallbacks loop as coded checked by TLC to refine it) + TLC trace validation of real Deferred "
               "executions (bounded-exhaustive programs, random long programs, TLC-simulated programs)",
